@@ -61,7 +61,7 @@ struct Peer {
 	bool lazy = false; int F = 100;
 	std::deque<Bytes> up_queue; Bytes up_z; size_t up_off = 0; int up_frag = 0; bool up_active = false;
 	int up_next_to = -1; size_t up_force_first = 0;
-	int merge_stage = 0; bool merge_lose_first = false; Bytes merge_next; std::vector<Bytes> up_abandoned;   // C01 merge game (see do_up)
+	int merge_stage = 0; bool merge_lose_first = false; Bytes merge_next; std::string stray_name; int stray_seq = 0; std::vector<Bytes> up_abandoned;   // C01 merge game (see do_up)
 	Bytes up_cur_pkt; int up_cur_to = -1;   // peer index the current upstream packet is addressed to (client-to-client), -1 the server
 	std::vector<Bytes> up_completed;
 	size_t absorbed = 0;
@@ -93,7 +93,7 @@ struct Run {
 	// statistics for the non-trivial rules
 	int n_redeliver = 0, n_red_cache = 0, n_red_qmem = 0, n_red_pending = 0, n_red_lastfrag = 0, n_red_case = 0, n_red_otheraddr = 0;
 	int n_multi3 = 0, n_nreq_ok = 0, n_badfrag = 0, n_dup_twice = 0, n_realsoon = 0, n_tun_via_held = 0, n_long = 0;
-	int n_cache_same = 0, n_trunc = 0, n_lost_answers = 0, n_giveup = 0, n_raw = 0, n_recycled = 0, n_recycled_same_name = 0, n_recycled_data_before_n = 0, n_c2c = 0, n_red_altdomain = 0, n_qr = 0, n_hsreq = 0, n_wrap = 0, n_merge = 0, n_glue = 0, n_infra = 0, n_merge_lost_first = 0, n_excluded_k4 = 0;
+	int n_cache_same = 0, n_trunc = 0, n_lost_answers = 0, n_giveup = 0, n_raw = 0, n_recycled = 0, n_recycled_same_name = 0, n_recycled_data_before_n = 0, n_c2c = 0, n_red_altdomain = 0, n_qr = 0, n_hsreq = 0, n_wrap = 0, n_merge = 0, n_glue = 0, n_infra = 0, n_merge_lost_first = 0, n_excluded_k4 = 0, n_stray = 0;
 	uint64_t n_data_emits = 0;
 	std::map<int, std::pair<int, Bytes>> c2c_on_delivery;   // last-fragment query record -> (receiving peer, packet): registered in the receiver's stream when the server reads that query
 	uint64_t t_last_sent = 0;    // when the harness last handed a query to the network
@@ -428,6 +428,16 @@ struct Engine {
 	void do_up(Peer &p)
 	{
 		static const char cm[] = "abcdefghijklmnopqrstuvwxyz0123456789";
+		if (!p.up_active && !p.stray_name.empty() && p.merge_stage == 0) {
+			int d = (p.sc.up_seq - p.stray_seq) & 7;
+			if (d >= 4) {
+				uint16_t id = p.sc.send_name(p.stray_name);
+				record(p, id, false, -1, p.sc.addr, p.stray_name, refproto::qtype_of(p.sc.qtype_k));
+				note(fmt("peer%d: a copy of the last fragment of packet seq %d, held up in the network, arrives now (sender is at seq %d)", peer_index(p), p.stray_seq, p.sc.up_seq));
+				p.stray_name.clear(); R.n_stray++;
+				sim::W.run_for(30000);
+			}
+		}
 		if (!p.up_active) {
 			if (p.up_queue.empty()) {
 				Bytes dst = R.s->server_tun_ip(); Peer *to = nullptr;
@@ -543,6 +553,12 @@ struct Engine {
 		p.sc.data_cmc = (p.sc.data_cmc + 1) % 36;
 		uint16_t id = p.sc.send_name(name);
 		int qi = record(p, id, false, -1, p.sc.addr, name, refproto::qtype_of(p.sc.qtype_k));
+		if (P.wrap_games && last && p.up_force_first && p.up_frag >= 1 && p.stray_name.empty() && !p.merge_stage) {
+			// Stray game: this last fragment of a crafted packet was sent twice -- the first copy (other cache-miss counter, so the server
+			// does not know it) is held up in the network and arrives when the sender is four to seven packets further on
+			p.stray_name = refproto::name_data(p.sc.userid, p.sc.up_seq, p.up_frag, p.sc.dn_seq, p.sc.dn_frag, last, cm[(p.sc.data_cmc + 11) % 36], p.sc.up_codec, chunk, p.sc.domain);
+			p.stray_seq = p.sc.up_seq;
+		}
 		if (last && p.up_cur_to >= 0) R.c2c_on_delivery[qi] = std::make_pair(p.up_cur_to, p.up_cur_pkt);   // the receiver's downstream stream will carry it from the moment the server has read this query
 		note(fmt("peer%d data id=%u up=%d/%d last=%d %zuB ack=%d/%d", peer_index(p), id, p.sc.up_seq, p.up_frag, (int)last, n, p.sc.dn_seq, p.sc.dn_frag));
 		p.up_off += n; p.up_frag++;
